@@ -1291,7 +1291,6 @@ func eqTerm(a, b string) string {
 	return "(" + a + " == " + b + ")"
 }
 
-// addOne returns the term of x+1 in the normal form used by compute.
 // subOne: the term one less than x = base+k (k >= 1).
 func subOne(x string) string {
 	if m := addK.FindStringSubmatch(x); m != nil {
@@ -1304,6 +1303,7 @@ func subOne(x string) string {
 	return x + "-1"
 }
 
+// addOne returns the term of x+1 in the normal form used by compute.
 func addOne(x string) string {
 	if m := addK.FindStringSubmatch(x); m != nil {
 		p, _ := strconv.ParseInt(m[2], 10, 64)
